@@ -59,7 +59,7 @@ def gen_book_case(rng, cid, thorough):
             ops.append({"K": "wait", "R": 0})
     if waits == 0:
         ops.append({"K": "wait", "R": 0})
-    return {"Id": cid, "Refs": refs, "ShortMs": 300, "WaitMs": 900, "Ops": ops}
+    return {"Id": cid, "Refs": refs, "ShortMs": 300, "WaitMs": 1200, "Ops": ops}
 
 
 def run(ctx):
@@ -80,7 +80,7 @@ def run(ctx):
         {"Refs": 2, "Ops": [{"K": "once_short", "R": 0}, {"K": "wait", "R": 0}, {"K": "cancel", "R": 0}, {"K": "once_short", "R": 0}, {"K": "once_short", "R": 0}, {"K": "wait", "R": 0}, {"K": "pause", "R": 0}]},
     ]
     for c in corpus:
-        c.update({"Id": len(book), "ShortMs": 300, "WaitMs": 900})
+        c.update({"Id": len(book), "ShortMs": 300, "WaitMs": 1200})
         book.append(c)
     while len(book) < n_book:
         book.append(gen_book_case(rng, len(book), ctx.thorough))
@@ -193,7 +193,7 @@ def run(ctx):
             if errs["schedule"] != "ok":
                 viol("ScheduleOnce:error", "%s: ScheduleOnce returned %s" % (o["Ref"], errs["schedule"]), o)
             elif len(recv) != 1:
-                viol("ScheduleOnce:delivery-count", "%s (delay %d ms): delivered %d times within delay + 700 ms" % (o["Ref"], d // MS, len(recv)), o)
+                viol("ScheduleOnce:delivery-count", "%s (delay %d ms): delivered %d times within delay + 1500 ms" % (o["Ref"], d // MS, len(recv)), o)
             elif recv[0] - call < d - 2 * MS:
                 viol("ScheduleOnce:early", "%s: delivered %.1f ms after the call, delay is %d ms" % (o["Ref"], (recv[0] - call) / MS, d // MS), o)
         elif kind in ("every", "pause"):
@@ -362,7 +362,7 @@ Eval vm_compute in summary.
     ctx.coverage.update({
         "evaluations": n_steps + len(live_outs) + n_claims + len(race_outs) + len(cluster_outs),
         "distinct_nontrivial": len(nontrivial) + len({canon_hash(c["Ops"]) for c in claims}),
-        "rule": "scheduler sequences: 8-28 operations (one-shot 300 ms / one-shot 1 h / interval 1 h / cancel / pause / resume / wait 900 ms) over 2-4 references on a real system — non-trivial = at least three different error classes observed, distinct by sequence; claims: 6-20 claims by 2-5 nodes over two references and run times from 200 s in the past to 20 s ahead with a 60 s TTL, distinct by sequence",
+        "rule": "scheduler sequences: 8-28 operations (one-shot 300 ms / one-shot 1 h / interval 1 h / cancel / pause / resume / wait 1200 ms) over 2-4 references on a real system — non-trivial = at least three different error classes observed, distinct by sequence; claims: 6-20 claims by 2-5 nodes over two references and run times from 200 s in the past to 20 s ahead with a 60 s TTL, distinct by sequence",
         "samples": [book[0], book[len(corpus)] if len(book) > len(corpus) else book[0], claims[0]],
         "book_steps": n_steps, "op_histogram": op_hist, "error_class_histogram": err_hist, "live": live_stats,
         "claims": n_claims, "claim_races": len(race_outs), "cluster_claim_races": len(cluster_outs),
